@@ -105,6 +105,20 @@ def run(ctx):
     if not ret_ok:
         res.add(Finding('C01', 'C01.b', 'R-AGREE', rd.file, rd.qualname, rd.node.lineno, 'recorded value replay', ret_why))
 
+    from .. import small
+    from . import c07
+    dr_ = small.analyse(repo, rm.recorder_excm(ctx), rd, policy=rm.RecorderPolicy(repo, rm.recorder_excm(ctx), roles), self_cls=roles.cls,
+                        domain=c07.HandlerSrcDomain)
+    caught = sorted(src for src in dr_.handler_srcs if str(src).startswith('raise ') and 'RecordingKeyError' not in str(src))
+    escapes = any(n.info['exit'] != 'return' and str(s.extra.get('exc_src', '')).startswith('raise ') and 'RecordingKeyError' not in str(s.extra.get('exc_src'))
+                  for n, s in dr_.exits)
+    cb.instance('the raised recorded exception leaves the reader unchanged (no handler of the reader receives it)', rd.qualname, not caught and escapes)
+    cb.evaluations += dr_.visited_pairs
+    if caught or not escapes:
+        res.add(Finding('C01', 'C01.b', 'R-AGREE', rd.file, rd.qualname, rd.node.lineno, 'recorded exception caught inside the reader (%s)' % (caught[:1] or 'never escapes'),
+                        'the exception recorded for an intercepted call is raised inside a try whose handler catches it (%s): a recorded KeyError / '
+                        'TypeError would replay as a different exception type' % (caught[:1] or 'it never escapes')))
+
     # ---------------- C01.c
     cc = res.clause('C01.c', 'R-AGREE', 'data handler applied on record iff given, and on replay iff given', floor=2)
     PREP = 'user-plugin:data_handler.prepare_input_for_recording'
@@ -242,6 +256,7 @@ def run(ctx):
                             sorted(htypes), leaked is not None)))
 
     rm.replay_idle_clause(ctx, res, 'C01', 'C01.h', 'every exit of play() resets counter / outputs / playback recording (ordinals restart at 1)')
+    rm.interception_flag_clause(ctx, res, 'C01', 'C01.i')
     # ---------------- C01.f
     cf = res.clause('C01.f', 'R-PROV', 'play(): fetched recording installed as playback recording, extracted from, returned', floor=3)
     ok, why = play_uses_fetched(roles)
@@ -259,15 +274,15 @@ def run(ctx):
             continue
         for n in ast.walk(m.tree):
             if isinstance(n, ast.Call) and isinstance(n.func, ast.Name) and n.func.id in names:
-                kw = [k for k in n.keywords if k.arg == 'unpicklable']
-                ok = not kw or (isinstance(kw[0].value, ast.Constant) and kw[0].value.value is True)
+                kw = [k for k in n.keywords if not (k.arg == 'unpicklable' and isinstance(k.value, ast.Constant) and k.value.value is True)]
+                ok = not kw
                 cg.instance('encode(...) at %s:%d' % (m.relpath, n.lineno), m.relpath, ok, detail=norm(n)[:80])
                 cg.evaluations += 1
                 if not ok:
                     fn = enclosing_function(repo, m, n)
                     res.add(Finding('C01', 'C01.g', 'R-AGREE', m.relpath, fn, n.lineno, norm(n),
-                                    'jsonpickle.encode called with unpicklable=%s: decode would return plain dicts / lists and '
-                                    'values differing only by type would collide' % norm(kw[0].value)))
+                                    'jsonpickle.encode called with a fidelity-reducing option (%s): decode no longer returns an equal '
+                                    'value (types, tuples / sets or shared sub-objects are lost)' % ', '.join('%s=%s' % (k.arg, norm(k.value)) for k in kw)))
     pc = None
     for m in repo.modules.values():
         if 'pickle_copy' in m.functions:
